@@ -62,12 +62,15 @@ def closure (link : Nat → Nat → Bool) (nodes : List Nat) : Nat → List Nat 
 def allNodes (phased : List Nat) (reads : List Read) (master : Option (List Nat)) : List Nat :=
   (phased ++ reads.flatMap (·.positions) ++ (master.getD [])).eraseDups
 
+/-- start set of the search: `a` itself if it is a node -/
+def startSet (nodes : List Nat) (a : Nat) : List Nat := nodes.filter (fun x => x == a)
+
 def connectedWith (link : Nat → Nat → Bool) (nodes : List Nat) (a b : Nat) : Bool :=
-  a == b || (closure link nodes nodes.length [a]).contains b
+  a == b || (closure link nodes nodes.length (startSet nodes a)).contains b
 
 /-- the oracle's component name: smallest position connected to `p` -/
 def leftmostWith (link : Nat → Nat → Bool) (nodes : List Nat) (p : Nat) : Nat :=
-  (closure link nodes nodes.length [p]).foldl min p
+  (closure link nodes nodes.length (startSet nodes p)).foldl min p
 
 def connectedB (phased : List Nat) (reads : List Read) (master : Option (List Nat)) (het : Option HetMap)
     (a b : Nat) : Bool :=
